@@ -22,7 +22,8 @@ func init() {
 			"R4 %w discipline on the wire path: in ociserver and ociclient an error that originates from a call on a backend Interface/BlobWriter/BlobReader value, an io.Copy involving one, or client.do/doRequest, and is formatted into a returned error, is formatted with %w; " +
 			"R5 the client wraps the decoded WireErrors in an HTTPError carrying resp.StatusCode, and converts *WireErrors to error only when non-empty; " +
 			"R6 prefix writer/reader agreement: HTTPError/WireError messages and trimErrorCodePrefix build their prefixes with the same two helpers followed by the same separator; " +
-			"R7 WireError.Is answers true only under equality of the two codes, httpError.Is only for status 416 and ErrRangeInvalid.",
+			"R7 WireError.Is answers true only under equality of the two codes, httpError.Is only for status 416 and ErrRangeInvalid. " +
+			"R6b httpError.Error writes its `<status> <status text>` prefix on every path (no status-dependent variant).",
 		NotDecided: "the message fixed point as a string fact for arbitrary message texts, and preservation of detail JSON bytes, are not decided.",
 		Technique:  "static analysis: table extraction from the package initialiser, format-verb/provenance analysis of fmt.Errorf arguments, SSA dominance",
 	})
